@@ -189,7 +189,15 @@ func c02ShapeOpt(rng *core.Rand, name string, ill bool) *fo.FuncDef {
 	for i := 0; i < n*3 && len(lets) < n; i++ {
 		x, y := pick(), pick()
 		var e fo.Expr
-		switch rng.Intn(17) {
+		switch rng.Intn(20) {
+		case 17:
+			// explicit type arguments: the instantiation alone types the (un-annotated) arguments
+			ta := core.Pick(rng, []*fo.Type{fo.TInt, fo.TString})
+			e = &fo.Call{Fn: v(core.Pick(rng, []string{"slice.PushLast", "slice.PushHead"})), TArgs: []*fo.Type{ta}, Args: []fo.Expr{v(x), v(y)}}
+		case 18:
+			e = &fo.Call{Fn: v("slice.Zip"), TArgs: []*fo.Type{fo.TInt, core.Pick(rng, []*fo.Type{fo.TString, fo.TBool})}, Args: []fo.Expr{v(x), v(y)}}
+		case 19:
+			e = &fo.Call{Fn: v(core.Pick(rng, []string{"slice.Head", "slice.Last"})), TArgs: []*fo.Type{core.Pick(rng, []*fo.Type{fo.TInt, fo.TString, fo.TSlice(fo.TInt)})}, Args: []fo.Expr{v(x)}}
 		case 14:
 			e = &fo.Ctor{Union: c02GOpt, Case: 0, Arg: v(x)}
 		case 15:
